@@ -443,6 +443,19 @@ func targets() []*target {
 			params: []string{"(f_ts : bytes -> bytes)", "(g_hex : bytes)", "(m_safeSet : list (Z * bool))", "(pc : unit)", "(pc_noColor pc_jsonMode : bool)", "(pc_buf : bytes)"},
 			result: "option bytes", final: "Some (pc_buf)"},
 
+		// ---- Entry.printLoggerName: nothing for a logger without a name; AddString and the library's WrapColorAndBgTo are parameters ----
+		{pkg: slogPkg, recv: "Entry", fn: "printLoggerName", coq: "print_logger_name", file: "Layout", strict: true, fallback: "LayoutRef.print_logger_name_ref",
+			comment: "(returns pc.buf; None = panic)", panicT: "None", retfmt: "Some (%s)", effects: []string{"pc_buf"}, inlineVars: true,
+			opaque: map[string]string{"pc.noColor": "pc_noColor"},
+			calls: map[string]callSpec{
+				"*PrintCtx.AddString":            {state: "f_add_string pc_buf %0 %1"},
+				"*PrintCtx.pcAppendComma":        {state: "pc_append_comma pc_jsonMode pc_buf", partial: true},
+				"*PrintCtx.pcAppendByte":         {state: "pc_append_byte pc_buf %0", partial: true},
+				"colorizeToolS.wrapColorAndBgTo": {state: "f_wrap_to pc_buf %1 %2 %3", lazy: true},
+			},
+			params: []string{"(f_add_string : bytes -> bytes -> bytes -> bytes)", "(f_wrap_to : bytes -> Z -> Z -> bytes -> bytes)", "(s_name : bytes)", "(pc : unit)", "(pc_noColor pc_jsonMode : bool)", "(pc_buf : bytes)"},
+			result: "option bytes", final: "Some (pc_buf)"},
+
 		// ---- the skeleton of printImpl after the blank-line rule (C02, C04-C06, C14): which part printers run,
 		// in what order, under which mode bit / flag; the level colours; ONE printOut of pc.Bytes() after End.
 		// The part printers are parameters over the context pc (LayoutRef.pcs)
